@@ -443,6 +443,7 @@ func checkExpressionShortcuts(w *World, r *Report) {
 			x := callArgs(T)[0]
 			// values computed from x
 			derived := map[ssa.Value]bool{unspill(x): true, x: true}
+			inside := map[ssa.Value]bool{}
 			for changed := true; changed; {
 				changed = false
 				instrsOf(fn, func(in ssa.Instruction) {
@@ -481,10 +482,20 @@ func checkExpressionShortcuts(w *World, r *Report) {
 						if derived[y.X] {
 							derived[v], changed = true, true
 						}
+					case *ssa.Slice:
+						// x[1:len(x)-1] — the text without its first and last character — is x
+						// read as a quoted literal; other slices are parts of x
+						if derived[y.X] && insideSlice(y) {
+							derived[v], changed = true, true
+							inside[v] = true
+						}
 					case *ssa.Phi:
 						for _, e := range y.Edges {
 							if derived[e] {
 								derived[v], changed = true, true
+								if inside[e] {
+									inside[v] = true
+								}
 							}
 						}
 					case *ssa.UnOp:
@@ -622,6 +633,26 @@ func checkExpressionShortcuts(w *World, r *Report) {
 						}
 					}
 				}
+				if inside[args[1]] {
+					// a quoted literal: the quote must have been shown not to occur inside
+					for _, c := range controllingConds(A) {
+						for _, truth := range []bool{true} {
+							var facts []condFact
+							expandCond(c, truth, &facts, 0)
+							for _, cf := range facts {
+								if noQuoteInside(cf, derived) {
+									guarded = true
+								}
+							}
+						}
+					}
+					if guarded {
+						r.ok("R08.12", ssaName(fn), construct, w.posOf(A.Pos()), "taken only where the quote was shown not to occur inside the text", true)
+					} else {
+						r.bad("R08.12", ssaName(fn), construct, w.posOf(A.Pos()), "a text that is otherwise handed to the expression tokenizer becomes one string token because it starts and ends with a quote; nothing shows that the quote does not occur in between: 'a' ~ 'b' is an expression, and is read here as the single string \"a' ~ 'b\" — the same expression means something else in this position")
+					}
+					return
+				}
 				if guarded {
 					r.ok("R08.12", ssaName(fn), construct, w.posOf(A.Pos()), "taken only where an identifier validator accepted the whole text", true)
 				} else {
@@ -674,4 +705,79 @@ func wholeStringTest(g *ssa.Function, depth int) bool {
 		}
 	})
 	return found
+}
+
+// insideSlice: x[1 : len(x)-1]
+func insideSlice(sl *ssa.Slice) bool {
+	lo, ok := sl.Low.(*ssa.Const)
+	if !ok || lo.Value == nil || lo.Int64() != 1 {
+		return false
+	}
+	bo, ok := sl.High.(*ssa.BinOp)
+	if !ok || bo.Op != token.SUB {
+		return false
+	}
+	k, ok := bo.Y.(*ssa.Const)
+	if !ok || k.Value == nil || k.Int64() != 1 {
+		return false
+	}
+	c, ok := bo.X.(*ssa.Call)
+	if !ok {
+		return false
+	}
+	b, ok := c.Call.Value.(*ssa.Builtin)
+	return ok && b.Name() == "len" && len(c.Call.Args) == 1 && sameValue(unspill(c.Call.Args[0]), unspill(sl.X))
+}
+
+// noQuoteInside: the fact says that a search for a character in the text (or its inside) found
+// nothing: strings.IndexByte/Index/IndexAny/IndexRune(…) < 0 (or == -1), !strings.Contains…(…),
+// strings.Count(…) == 2 on the whole text, or a whole-string validator of the package.
+func noQuoteInside(cf condFact, derived map[ssa.Value]bool) bool {
+	onText := func(c *ssa.Call) bool {
+		return len(c.Call.Args) >= 1 && (derived[c.Call.Args[0]] || derived[unspill(c.Call.Args[0])])
+	}
+	stringsCall := func(v ssa.Value, names ...string) *ssa.Call {
+		c, ok := v.(*ssa.Call)
+		if !ok {
+			return nil
+		}
+		g := c.Call.StaticCallee()
+		if g == nil || g.Pkg == nil || g.Pkg.Pkg.Path() != "strings" {
+			return nil
+		}
+		for _, n := range names {
+			if g.Name() == n {
+				return c
+			}
+		}
+		return nil
+	}
+	switch x := cf.v.(type) {
+	case *ssa.BinOp:
+		if c := stringsCall(x.X, "IndexByte", "Index", "IndexAny", "IndexRune"); c != nil && onText(c) {
+			if k, ok := x.Y.(*ssa.Const); ok && k.Value != nil {
+				switch {
+				case x.Op == token.LSS && k.Int64() == 0 && cf.truth, x.Op == token.EQL && k.Int64() == -1 && cf.truth,
+					x.Op == token.GEQ && k.Int64() == 0 && !cf.truth, x.Op == token.NEQ && k.Int64() == -1 && !cf.truth:
+					return true
+				}
+			}
+		}
+		if c := stringsCall(x.X, "Count"); c != nil && onText(c) {
+			if k, ok := x.Y.(*ssa.Const); ok && k.Value != nil && x.Op == token.EQL && cf.truth && (k.Int64() == 2 || k.Int64() == 0) {
+				return true
+			}
+		}
+	case *ssa.Call:
+		if c := stringsCall(x, "Contains", "ContainsAny", "ContainsRune"); c != nil && onText(c) && !cf.truth {
+			return true
+		}
+		if g := x.Call.StaticCallee(); g != nil && isTwigFn(g) && cf.truth && len(x.Call.Args) > 0 {
+			a := x.Call.Args[len(x.Call.Args)-1]
+			if (derived[a] || derived[unspill(a)]) && wholeStringTest(g, 0) {
+				return true
+			}
+		}
+	}
+	return false
 }
